@@ -54,6 +54,18 @@ def seg_bounds(s):
     return out, pos
 
 
+def _sub(g, lo, n, ctx):
+    """slice of one segment; a slice of an opaque segment that is all hex digits is all hex digits (one-way: the slice's own
+    predicate is a fresh Bool implied by the parent's)"""
+    r = g.sub(lo, n)
+    if isinstance(g, Gen) and g.hexpred is not None and isinstance(r, Gen):
+        from .sym import fresh_name
+        hp = z3.Bool(fresh_name("hexslice"))
+        ctx.fact(z3.Implies(g.hexpred, hp))
+        r.hexpred = hp
+    return r
+
+
 def seq_slice(s, lo, hi, ctx):
     """s[lo:hi] with Python clamping; lo/hi: None, int or Int term"""
     s = concretize(s, ctx)
@@ -145,7 +157,7 @@ def seq_slice(s, lo, hi, ctx):
             a0 = max(ca - stc, 0)
             b0 = min(cb - stc, Lc)
             if a0 < b0:
-                out.append(g if (a0 == 0 and b0 == Lc) else g.sub(a0, b0 - a0))
+                out.append(g if (a0 == 0 and b0 == Lc) else _sub(g, a0, b0 - a0, ctx))
         if ok:
             return Seq(s.kind, out)
     # suffix cut s[a:] with concrete a inside a concrete prefix
@@ -166,7 +178,7 @@ def seq_slice(s, lo, hi, ctx):
                 # cut inside a symbolic-length segment
                 d = ca - stc
                 if ctx.entails(zi(L) >= d):
-                    out.append(g.sub(d, simp(zi(L) - d)))
+                    out.append(_sub(g, d, simp(zi(L) - d), ctx))
                     out += s.segs[idx + 1:]
                     break
                 ok = False
@@ -174,7 +186,7 @@ def seq_slice(s, lo, hi, ctx):
             if stc + Lc <= ca:
                 continue
             a0 = max(ca - stc, 0)
-            out.append(g.sub(a0, Lc - a0))
+            out.append(_sub(g, a0, Lc - a0, ctx))
         if ok:
             return Seq(s.kind, out)
     # general: a view
